@@ -36,6 +36,18 @@ impl SimDir {
         std::fs::create_dir_all(&root).expect("simdir: create root");
         SimDir { holder: root.clone(), given: root.clone(), root, syscalls: 1, pipes: vec![] }
     }
+    /// A simulated disk below a directory whose name is NOT valid UTF-8 (legal on unix: a Latin-1 name): paths handed
+    /// to the code under test cannot be turned into `&str` (missed seeded change C12-17: mapping files recognised by
+    /// `path.to_str()...ends_with(..)`)
+    pub fn new_raw_root(tag: &str) -> SimDir {
+        use std::os::unix::ffi::OsStrExt;
+        let mut d = SimDir::new(tag);
+        let root = d.holder.join(std::ffi::OsStr::from_bytes(b"m\xE4ppings"));
+        std::fs::create_dir_all(&root).expect("simdir: raw root");
+        d.root = root.clone();
+        d.given = root;
+        d
+    }
     /// A simulated disk whose root directory is named / reached per `style` (see `styled_dir`); `given_path()` is what
     /// the code under test gets, every file operation of the simulator works on the real directory.
     pub fn new_styled(tag: &str, style: u8, ext: &str) -> SimDir {
